@@ -279,7 +279,7 @@ func c15Adapter(c *Ctx) {
 		}
 	}
 	R.Check(okA, "C15.R3", "writer-selection", "(*Policy).sanitize: destination selection", c.P.Pos(s.Fn.Pos()), "w.(stringWriterWriter) when available, else asStringWriter{w}", why)
-	ad := c.P.Func(load.ModPath, "(*asStringWriter).WriteString")
+	ad := adapterWriteString(c)
 	if ad != nil {
 		ok2, why2 := forwardsWrite(ad)
 		R.Check(ok2, "C15.R3", "adapter", "(*asStringWriter).WriteString", c.P.Pos(ad.Pos()), "Write([]byte(s)) with results forwarded", why2)
